@@ -422,7 +422,38 @@ def rule_r6(p, res):
     r.check("points_to_sample = patch[:, None, :] + patch_centers" in s2 and "points_to_sample = points_to_sample[:, :, None, :] + offsets" in s2, sa, sa.node, "sampling grid = centred patch + centre + offset")
 
 
-RULES = [rule_r1, rule_r2, rule_r3, rule_r4, rule_r5, rule_r6]
+def rule_r7(p, res):
+    r = res.rule("C13.R7", "sampling grid of a patch: axis k is built from patch_shape[k] only, and whatever is added to both axes derives from the whole patch_shape")
+    f = p.func("menpo.image.patches._centered_patch")
+    r.instance(f)
+    ps = f.params[0]
+    grids = [k for k in calls_in(f.node) if (dotted(k.func) or "") in ("np.meshgrid", "numpy.meshgrid")]
+    need(len(grids) == 1 and len(grids[0].args) == 2, "C13.R7: the two-axis meshgrid of _centered_patch was not found")
+    inside = set()
+    for axis, a in enumerate(grids[0].args):
+        idx = set()
+        for x in ast.walk(a):
+            inside.add(id(x))
+            if isinstance(x, ast.Subscript) and isinstance(x.value, ast.Name) and x.value.id == ps:
+                idx.add(const_value(x.slice))
+        r.check(idx == {axis}, f, a, "axis %d of the sampling grid is built from %s%s: a non-square patch is sampled on the wrong grid" % (axis, ps, sorted(idx, key=str)), {"axis": axis, "reads": sorted(idx, key=str)})
+    per_stmt = {}
+    for x in walk_own(f.node):
+        if isinstance(x, ast.Subscript) and id(x) not in inside and isinstance(x.value, ast.Name) and x.value.id == ps and const_value(x.slice) is not None \
+                and not isinstance(stmt_of(x), ast.Assert):
+            per_stmt.setdefault(id(stmt_of(x)), []).append(x)
+    for xs in per_stmt.values():
+        if {const_value(x.slice) for x in xs} >= {0, 1}:
+            continue  # both axes spelled out side by side
+        x = xs[0]
+        r.violation(f, x, "`%s` takes one axis of the patch shape for a quantity that is applied to both axes (`%s`): for a patch whose height and width differ in parity the "
+                    "sampling locations of the other axis are half a pixel off, so the resampling path disagrees with the slicing path" % (norm(x), norm(stmt_of(x))[:60]))
+    hp = [n for n in walk_own(f.node) if isinstance(n, ast.Assign) and "% 2" in norm(n.value)]
+    need(len(hp) == 1, "C13.R7: the half-pixel shift for odd sizes was not found")
+    r.check(any(isinstance(x, ast.Name) and x.id == ps for x in ast.walk(hp[0].value)), f, hp[0], "the half-pixel shift must be computed per axis from the patch shape")
+
+
+RULES = [rule_r1, rule_r2, rule_r3, rule_r4, rule_r5, rule_r6, rule_r7]
 
 _CROP_FIXED_GUARD = "if not (constrain_to_boundary or (all_max_bounded and all_min_bounded)):"
 WITNESSES = [
@@ -453,3 +484,9 @@ WITNESSES = [
 # the second twin needs the local to exist: rewrite it as a two-step edit on the same function
 WITNESSES[-1] = Witness("C13.T2", "menpo/image/patches.py", "extract_patches_by_sampling",
                         "n_points = patch_centers.shape[0]", "n_points = patch_centers.shape[0]\n    n_chan = pixels.shape[0]", kind="T")
+
+WITNESSES += [
+    Witness("C13.W11", "menpo/image/patches.py", "_centered_patch", "half_pixel = np.array([patch_shape]) % 2 / 2", "half_pixel = np.array(patch_shape[0]) % 2 / 2",
+            rule="C13.R7", construct="_centered_patch", note="seeded change R3-C13-B"),
+    Witness("C13.T3", "menpo/image/patches.py", "_centered_patch", "half_pixel = np.array([patch_shape]) % 2 / 2", "half_pixel = np.array([[patch_shape[0] % 2, patch_shape[1] % 2]]) / 2", kind="T"),
+]
